@@ -43,7 +43,9 @@ pub fn lit_programs(tier: &str) -> (Vec<Program>, String) {
         v.extend(fam::lit_coh3(false));
         v.extend(fam::lit_fence_multi(false));
         v.extend(fam::lit_mp_pub(false));
-        level = "LIT: message passing with every publishing / subscribing operation and fence; fence after two loads of flags published by two writers; coherence through a third thread (A: x-op, publish; B: subscribe, 1-2 x-ops; C: 1-2 x-ops); staggered spawns (main accesses/fences between two spawns); 2 threads, <=3 events on 1 location, <=4 events on 2 locations; 3 threads x 1 event on 1-2 locations (reduced orderings) + sentinels".to_string();
+        v.extend(fam::lit_cas_coh(false));
+        v.extend(fam::lit_stale_acq(false));
+        level = "LIT: failing compare_exchange as a read (coherence); acquire load of an older store while a newer publication exists; message passing with every publishing / subscribing operation and fence; fence after two loads of flags published by two writers; coherence through a third thread (A: x-op, publish; B: subscribe, 1-2 x-ops; C: 1-2 x-ops); staggered spawns (main accesses/fences between two spawns); 2 threads, <=3 events on 1 location, <=4 events on 2 locations; 3 threads x 1 event on 1-2 locations (reduced orderings) + sentinels".to_string();
     } else {
         v.extend(fam::lit(1, 2, 3, 4, true, true));
         v.extend(fam::lit(2, 2, 2, 4, true, true));
@@ -54,7 +56,9 @@ pub fn lit_programs(tier: &str) -> (Vec<Program>, String) {
         v.extend(fam::lit_coh3(true));
         v.extend(fam::lit_fence_multi(true));
         v.extend(fam::lit_mp_pub(true));
-        level = "LIT: message passing with every publishing / subscribing operation and fence; fence after two loads of flags published by two writers (all fence kinds); coherence through a third thread (5 publication idioms, two hops); staggered spawns; 2 threads <=4 events (all orderings, CAS), <=5 events on one location (reduced orderings), 3 threads <=4 events (reduced orderings) + sentinels".to_string();
+        v.extend(fam::lit_cas_coh(true));
+        v.extend(fam::lit_stale_acq(true));
+        level = "LIT: failing compare_exchange as a read (coherence); acquire load of an older store while a newer publication exists; message passing with every publishing / subscribing operation and fence; fence after two loads of flags published by two writers (all fence kinds); coherence through a third thread (5 publication idioms, two hops); staggered spawns; 2 threads <=4 events (all orderings, CAS), <=5 events on one location (reduced orderings), 3 threads <=4 events (reduced orderings) + sentinels".to_string();
     }
     v.extend(fam::lit_sentinels());
     (v, level)
